@@ -61,6 +61,23 @@ func runC16(r *run) {
 		for i := 0; i < nerr; i++ {
 			emit(genErrFile(rg.fork(uint64(1<<40+i)), i))
 		}
+		// errors that are noticed at the end of the source (a tag that is never closed): the token
+		// they report is found where they say, also when '-' markers, comments or verbatim blocks
+		// touch the text in front of the end
+		opens := []string{"{% block body %}", "{% if a %}", "{% for x in lst %}", "{% with q=1 %}", "{% macro m() %}", "{% filter upper %}", "{% spaceless %}", "{% autoescape on %}", "{% ifchanged %}", "{% comment %}", "{% verbatim %}"}
+		trails := []string{"   text", " \n\t text \n", "a{# one #}b{# two #}c", "x{% verbatim %} v {% endverbatim %}y", "", "\n", "{{ a -}}   z", "é  ü", "t{# c #}"}
+		for oi, op := range opens {
+			for ti, tr := range trails {
+				for di, dash := range []string{"", "-"} {
+					o := op
+					if dash == "-" {
+						o = strings.Replace(op, " %}", " -%}", 1)
+					}
+					pre := []string{"", "head\n  ", "{{ a }} "}[(oi+ti+di)%3]
+					emit(caseT{"eoferr", []string{hx(pre + o + tr)}})
+				}
+			}
+		}
 		// the same compositions on disk, spread over two base directories (site templates and a
 		// shared library): the error names the file that holds the construct, and RawLine gives the
 		// line of that file
@@ -155,6 +172,39 @@ func execC16(r *run, c caseT) {
 		execErrFile(r, c)
 	case "errdisk":
 		execErrDisk(r, c)
+	case "eoferr":
+		src := unhx(c.args[0])
+		_, err := pongo2.FromString(src)
+		obs := "none"
+		var perr *pongo2.Error
+		if err != nil {
+			perr, _ = err.(*pongo2.Error)
+			obs = "plainerr"
+			if perr != nil {
+				obs = fmt.Sprintf("%d:%d", perr.Line, perr.Column)
+				if perr.Token != nil {
+					obs += fmt.Sprintf(":%d:%d:%s", perr.Token.Line, perr.Token.Col, hx(perr.Token.Val))
+				}
+			}
+		}
+		id := r.emit(c.op, c.args, "eoferr:"+obs)
+		r.nontrivial(c.args[0])
+		detail := map[string]any{"source": src, "observed": obs}
+		switch {
+		case perr == nil:
+			if !strings.Contains(src, "{% verbatim") { // (a verbatim block is closed by the first endverbatim)
+				r.reject(id, "a tag that is never closed produced no pongo2 error", detail)
+			}
+		case perr.Line > 0:
+			if _, ok := offsetOf(src, perr.Line, perr.Column); !ok {
+				r.reject(id, "error position outside the source", detail)
+			} else if perr.Token != nil && perr.Token.Line == perr.Line && perr.Token.Col == perr.Column {
+				if why := tokenAt(src, perr.Token); why != "" {
+					detail["token"] = perr.Token.String()
+					r.reject(id, "error: "+why, detail)
+				}
+			}
+		}
 	case "lex":
 		src := unhx(c.args[0])
 		obs, toks, lerr := lexObs(src)
